@@ -16,10 +16,17 @@ import (
 	"time"
 )
 
-const (
-	verifDir = "/verif"
-	goNew    = "go1.26.8"
-)
+const goNew = "go1.26.8"
+
+// verifDir is the root of the verification tree this driver belongs to: bin/check
+// exports it (a background snapshot of /verif must use its own overlay, cache, evidence
+// and replay directories, not those of /verif).
+var verifDir = func() string {
+	if d := os.Getenv("VERIF_HOME"); d != "" {
+		return d
+	}
+	return "/verif"
+}()
 
 func repoDir() string {
 	if d := os.Getenv("VERIF_REPO"); d != "" {
